@@ -69,6 +69,9 @@ View(m) ==
       [] OTHER -> Lookup(m)
 
 Init == /\ kind \in Kinds /\ def \in ModSet /\ refs \in Scenarios /\ pie \in BOOLEAN
+        (* the address of a function is taken directly only by non-PIC code of a non-PIE executable
+           (R_X86_64_32); PIE code and PC-relative references to functions are calls, not addresses *)
+        /\ (kind = "func" /\ pie) => refs["E"] # "direct"
         /\ phase = "linked"
         /\ addrSeen = [m \in ModSet |-> 0]
         /\ mem = [a \in {AddrDef, AddrCopy, AddrPlt} |-> 0]
